@@ -64,7 +64,7 @@ def reseed_uuid(seed):
 class Built:
     """A materialised + built program (chart)."""
 
-    def __init__(self, prog, events=True, store=False):
+    def __init__(self, prog, events=True, store=False, events2=False):
         st = setup_engine()
         self.prog = prog
         self.mod = materialize.load(prog)
@@ -77,6 +77,7 @@ class Built:
         except Exception as e:  # noqa: BLE001
             self.build_error = e
             return
+        self.events2 = events2
         self.chart = self.make_chart(events, store)
 
     def make_chart(self, events=True, store=False):
@@ -84,7 +85,7 @@ class Built:
         return st['PipelineChart'](
             model_name='rv',
             entrypoint=self.dag,
-            event_managers=[rt.RecordingEvents] if events else [],
+            event_managers=([rt.RecordingEvents] + ([rt.SecondEvents] if getattr(self, 'events2', False) else [])) if events else [],
             artifact_store=st['store_cls'] if store else None,
         )
 
